@@ -140,6 +140,207 @@ func c19Exec(paths []*path.Path, docs []any, vars map[string]any, in c19Input, e
 	return fp + " " + fmt.Sprint(o.Bool)
 }
 
+// c19Overlap: identical calls that overlap in time. All goroutines issue the
+// same call - the same *Path, no options - at the same moment, yielding at
+// every step so that the calls are in flight together; one of them has a
+// context that is cancelled in mid-flight. Each call returns what it returns
+// alone: the cancelled one its cancellation (or its result, if it was done
+// before), every other one its result. Half of the goroutines pass the
+// document, the other half a shorter slice of the same backing array - another
+// document, with other answers. Every call must also have done its own
+// evaluation (at least one step observed by the hooks under its own context).
+func c19Overlap(c *h.Ctx, n, rounds int) {
+	full := make([]any, 0, 80)
+	for i := 0; i < 63; i++ {
+		if i%2 == 0 {
+			full = append(full, float64(100+i))
+		} else {
+			full = append(full, map[string]any{"x": float64(100 + i)})
+		}
+	}
+	full = append(full, float64(9))
+	short := full[: len(full)-1 : len(full)-1]
+	docs := []any{full, short}
+	ptxts := []string{`$[*] ? (@ == 9)`, `$[*] ? (@ < 10)`, `$[last]`, `$.size()`, `strict $[*] ? (@ == 9)`, `$.** ? (@ == 9)`, `$[*] ? (@.x > 150 || @ == 9)`, `$[60 to last]`, `$[*] ? (@ == 9).type()`,
+		`$[last] == 9`, `exists($[*] ? (@ == 9))`, `$[*] > 161`, `$[*].x ? (@ == 161)`, `strict $[63]`}
+	entries := []string{"exists", "existsormatch", "query", "first"}
+	paths := make([]*path.Path, len(ptxts))
+	base := map[string]string{}
+	fpOf := func(o *h.Out) string {
+		fp := o.Class
+		switch {
+		case len(o.Faults) > 0:
+			fp += " FAULT:" + strings.Join(o.Faults, ";")
+		case o.Class != h.OK:
+			fp += " " + o.ErrText()
+		case o.Entry == "query":
+			fp += " " + h.CanonList(o.Items)
+		case o.Entry == "first":
+			fp += " " + h.Canon(o.Val)
+		default:
+			fp += " " + fmt.Sprint(o.Bool)
+		}
+		return fp
+	}
+	for i, t := range ptxts {
+		paths[i] = path.MustParse(t)
+		seq := path.MustParse(t)
+		for di, d := range docs {
+			for _, e := range entries {
+				base[fmt.Sprint(i, di, e)] = fpOf(h.CallMonitored(e, seq, d, h.Opts{}, h.NewMon()))
+				c.Eval(1)
+			}
+		}
+	}
+	type res struct {
+		key, got  string
+		cancelled bool
+		steps     int
+	}
+	nrounds := rounds * 40
+	for round := 0; round < nrounds; round++ {
+		pi := round % len(ptxts)
+		entry := entries[(round/len(ptxts))%len(entries)]
+		victim := round % n
+		out := make([]res, n)
+		c19Concurrent.Store(true)
+		h.NoSharedAtomics = true
+		var wg sync.WaitGroup
+		start := make(chan struct{})
+		for g := 0; g < n; g++ {
+			wg.Add(1)
+			go func(g int) {
+				defer wg.Done()
+				di := g % 2
+				if round%3 == 0 {
+					di = 0 // every call identical, document included
+				}
+				m := h.NewMon()
+				m.YieldEvery = 1
+				if g == victim {
+					m.CancelAt = 2 + round%5
+					m.Cause = context.Canceled
+				}
+				<-start
+				o := h.CallMonitored(entry, paths[pi], docs[di], h.Opts{}, m)
+				out[g] = res{key: fmt.Sprint(pi, di, entry), got: fpOf(o), cancelled: g == victim, steps: m.Steps}
+			}(g)
+		}
+		close(start)
+		wg.Wait()
+		c19Concurrent.Store(false)
+		h.NoSharedAtomics = false
+		c.Eval(n)
+		for g, r := range out {
+			want := base[r.key]
+			cs := h.Case{Kind: "overlap", Path: ptxts[pi], Entry: entry, Extra: map[string]string{"goroutine": fmt.Sprint(g), "cancelled-goroutine": fmt.Sprint(victim), "document": map[bool]string{true: "100..162,9 (64 elements)", false: "its first 63 elements (same backing array)"}[strings.HasPrefix(r.key, fmt.Sprint(pi, 0))]}}
+			switch {
+			case r.steps == 0:
+				c.Violate("concurrent-differs", h.F("entry", entry, "kind", "no-evaluation-of-its-own"), fmt.Sprintf("%s(%s) returned %q although no evaluation step ran under the call's own context (it overlapped with %d identical calls)", entry, ptxts[pi], r.got, n-1), cs)
+			case r.cancelled && strings.Contains(r.got, "context canceled"):
+				c.Held("concurrent-differs")
+			case r.got != want:
+				kind := "overlapping-identical-calls"
+				if strings.Contains(r.got, "context canceled") {
+					kind = "another-call's-cancellation"
+				}
+				c.Violate("concurrent-differs", h.F("entry", entry, "kind", kind), fmt.Sprintf("%s(%s) overlapping with %d identical calls (goroutine %d of them was cancelled in mid-flight) returned %q; run alone it returns %q", entry, ptxts[pi], n-1, victim, r.got, want), cs)
+			default:
+				c.Held("concurrent-differs")
+			}
+		}
+	}
+	c.Count("overlap.identical-call-rounds", int64(nrounds))
+}
+
+// c19RejectedParses: Parse is called concurrently also with texts it rejects
+// (user input), and a rejected text leaves nothing behind: a later Parse of
+// the same text costs what the first one cost.
+func c19RejectedParses(c *h.Ctx, n int) {
+	bad := []string{`(99999999999999999999)[0]`, `$ ? (@ > (1e999)[*])`, `($.decimal(1,2,3))."b"`, `(99999999999999999999).a.b[*]`, `$.a == (1e400).abs()`, `$[99999999999999999999 to last]`, `$ ? (@ like_regex "(" flag "i")`,
+		`$.a.decimal(1,2,3).b`, `(0x)[0].a`, `("\u12").a[*]`, `$ ? (@ ==`, `$.a like_regex "x" flag "z"`, `last.a[0]`, `@[*].a`, `$.**{99999999999 to 2}.a`, `(1e999 + 1e999).a.b.c`, `-(99999999999999999999).a`, `$[*] ? (@ > 99999999999999999999)[0][1]`}
+	want := make([]string, len(bad))
+	for i, t := range bad {
+		_, err, pan := h.ParseSafe(t)
+		if err == nil || pan != "" {
+			c.Count("gen.unexpectedly-accepted", 1)
+			continue
+		}
+		want[i] = err.Error()
+	}
+	c19Concurrent.Store(true)
+	h.NoSharedAtomics = true
+	var wg sync.WaitGroup
+	var mu sync.Mutex
+	var diffs []string
+	start := make(chan struct{})
+	for g := 0; g < n; g++ {
+		wg.Add(1)
+		go func(g int) {
+			defer wg.Done()
+			<-start
+			for k := 0; k < 400; k++ {
+				i := (k + g) % len(bad)
+				if want[i] == "" {
+					continue
+				}
+				_, err, pan := h.ParseSafe(bad[i])
+				got := pan
+				if err != nil {
+					got = err.Error()
+				}
+				if got != want[i] {
+					mu.Lock()
+					diffs = append(diffs, fmt.Sprintf("concurrent Parse(%q) = %q; alone %q", bad[i], got, want[i]))
+					mu.Unlock()
+					return
+				}
+				if k%16 == 0 {
+					if _, err := path.Parse(c19Pool[(k/16+g)%len(c19Pool)]); err != nil {
+						mu.Lock()
+						diffs = append(diffs, "concurrent Parse of a pool text failed: "+err.Error())
+						mu.Unlock()
+						return
+					}
+				}
+			}
+		}(g)
+	}
+	close(start)
+	wg.Wait()
+	c19Concurrent.Store(false)
+	h.NoSharedAtomics = false
+	c.Eval(n * 400)
+	if len(diffs) > 0 {
+		c.Violate("concurrent-differs", h.F("kind", "parse-rejected"), diffs[0], h.Case{Kind: "concurrent-parse"})
+	} else {
+		c.Held("concurrent-differs")
+	}
+	// sequentially: what N rejected parses leave reachable does not grow with N
+	measure := func(rounds int) uint64 {
+		for k := 0; k < rounds; k++ {
+			for _, t := range bad {
+				_, _, _ = h.ParseSafe(t)
+			}
+		}
+		runtime.GC()
+		runtime.GC()
+		var ms runtime.MemStats
+		runtime.ReadMemStats(&ms)
+		return ms.HeapAlloc
+	}
+	measure(50)
+	h0 := measure(50)
+	h1 := measure(6000)
+	c.Eval(6100 * len(bad))
+	c.Count("max:rejected-parse-heap-growth-bytes", int64(h1)-int64(h0))
+	if h1 > h0 && h1-h0 > 2<<20 {
+		c.Violate("repeat-differs", h.F("kind", "rejected-parses-accumulate"), fmt.Sprintf("%d rejected Parse calls left %d more bytes reachable than %d of them (heap after GC %d -> %d): a rejected parse is not independent of the ones before it", 6000*len(bad), h1-h0, 50*len(bad), h0, h1), h.Case{Kind: "rejected-parses"})
+	} else {
+		c.Held("repeat-differs")
+	}
+}
+
 type c19Op struct {
 	client int
 	in     c19Input
@@ -423,6 +624,8 @@ func runC19(c *h.Ctx) {
 			c.Violate("concurrent-differs", h.F("kind", "shared-input-modified"), "a shared document or the shared variables map was modified", h.Case{Kind: "shared-input"})
 		}
 	}
+	c19Overlap(c, cf.n, rounds)
+	c19RejectedParses(c, cf.n)
 	c.Count("overlap.operation-pairs", overlapPairs)
 	c.Count("overlap.same-path-pairs", overlapSamePath)
 	c.Count("max:goroutines", int64(cf.n))
